@@ -558,7 +558,7 @@ func (f *Frame) enterLoop(b *ssa.BasicBlock, li *loopInfo) (string, *State) {
 		cur := e.comp(st, c, "")
 		t := cur
 		for _, r := range refs {
-			if a := e.cellAlloc[r]; a != nil && !storedInBlocks(a, li.body) {
+			if a := e.cellAlloc[r]; a != nil && e.cellLive(r) && !storedInBlocks(a, li.body) {
 				t = store(t, r, sel(e.comp(preLoop, c, ""), r))
 			}
 		}
@@ -754,6 +754,10 @@ func (f *Frame) instr(ins ssa.Instruction) {
 					e.cellAlloc = map[string]*ssa.Alloc{}
 				}
 				e.cellAlloc[r] = i
+				if e.cellBlk == nil {
+					e.cellBlk = map[string]*ssa.BasicBlock{}
+				}
+				e.cellBlk[r] = e.curBlk
 			}
 		}
 		f.set(i, term(r, sInt, i.Type()))
